@@ -142,7 +142,9 @@ def tolist(x):
 
 # ------------------------------------------------------------------ generators
 STR_VALUES = ['a', 'xy z', 'Main St 5', 'q"uote', 'UPPER', 'n/a', 'x' * 30]
-KEYPOOL = [('s', 'str'), ('name', 'str'), ('i', 'int'), ('count', 'int'), ('b', 'bool'), ('f', 'float'), ('ratio', 'float')]
+KEYPOOL = [('s', 'str'), ('name', 'str'), ('i', 'int'), ('count', 'int'), ('b', 'bool'), ('f', 'float'), ('ratio', 'float'),
+           # names that are not Python identifiers (hyphen, leading digit, leading underscore, keyword)
+           ('max-speed', 'int'), ('2nd_name', 'str'), ('_note', 'str'), ('class', 'str')]
 
 
 def rand_props(rng, keyset, allow_missing=True):
@@ -560,8 +562,37 @@ def main():
     for cn, c in enumerate(colls):
         specs = c['specs']
         cls = Track if c['track'] else FeatureCollection
-        objs0 = [build(sp, c['naive']) for sp in specs]
-        coll = cls(objs0)
+        if cn % 3 == 1:
+            # the same collection reached through a history: built in an older state (each member without its last
+            # property, and - outside Tracks - without time bounds), exported once by every route, then brought to the
+            # target state by in-place updates of the members.  What is written afterwards must describe the members
+            # as they are NOW (new keys and time columns included), whatever was exported before.
+            objs0 = []
+            for sp in specs:
+                old = dict(sp)
+                props = dict(sp.get('props') or {})
+                last = list(props)[-1] if props else None
+                if last is not None:
+                    del props[last]
+                old['props'] = props
+                if not c['track']:
+                    old['dt'] = None
+                objs0.append(build(old, c['naive']))
+            coll = cls(objs0)
+            guarded(lambda: coll.to_geopandas())
+            guarded(lambda: shapefile_roundtrip(coll, cls))
+            guarded(lambda: coll.to_fastkml_folder('before'))
+            for sp, o in zip(specs, objs0):
+                props = sp.get('props') or {}
+                if props:
+                    last = list(props)[-1]
+                    o.set_property(last, props[last])
+                if not c['track'] and sp.get('dt') is not None:
+                    o.set_dt(mk_dt(sp['dt'], c['naive']))
+            ck.count('collection exported before its members were updated in place')
+        else:
+            objs0 = [build(sp, c['naive']) for sp in specs]
+            coll = cls(objs0)
         order = [next(i for i, x in enumerate(objs0) if x is o) for o in coll.geoshapes]      # Track sorts (stably)
         specs = [specs[i] for i in order]
         objs = list(coll.geoshapes)
